@@ -313,6 +313,8 @@ pub struct RunLog {
     pub max_idle_turns_in_poll: u64,
     pub parser_delivered: u64,
     pub post_end_polls_ok: bool,
+    /// Max number of delayed retries outstanding at a quiescent point while gates were pending.
+    pub max_delayed_outstanding: usize,
 }
 
 static PROBE: AtomicU64 = AtomicU64::new(0);
@@ -460,7 +462,8 @@ pub fn run_case(case: &RCase, sched: &mut Schedule<'_>) -> RunLog {
     let mut in_flight: i64 = 0;
     // scenarios with a delayed retry outstanding (failed, left > 0, delay configured, not yet restarted)
     let mut delayed_outstanding: Vec<String> = vec![];
-    let mut slept_for_current = false;
+    let mut sleeps_in_epoch = 0usize;
+    let mut max_delayed_outstanding = 0usize;
     let max_delay = case.max_delay();
     let mut idle_polls = 0usize;
     let mut last_activity = 0u64;
@@ -507,7 +510,7 @@ pub fn run_case(case: &RCase, sched: &mut Schedule<'_>) -> RunLog {
                                     });
                                     if failed {
                                         delayed_outstanding.push(s.to_string());
-                                        slept_for_current = false;
+                                        sleeps_in_epoch = 0;
                                     }
                                 }
                             }
@@ -544,7 +547,12 @@ pub fn run_case(case: &RCase, sched: &mut Schedule<'_>) -> RunLog {
         // ---- quiescent point
         round += 1;
         let (npend, labels) = with_lab(|l| (l.pending.len(), l.pending.iter().map(|p| p.label.clone()).collect::<Vec<_>>()));
-        let extra = usize::from(!delayed_outstanding.is_empty() && !slept_for_current && npend > 0);
+        if npend > 0 {
+            max_delayed_outstanding = max_delayed_outstanding.max(delayed_outstanding.len());
+        }
+        // While a delayed retry is outstanding the schedule may also let real time pass: a short
+        // nap (lands between two deadlines) or a long one (past every deadline).
+        let extra = if !delayed_outstanding.is_empty() && npend > 0 && sleeps_in_epoch < 6 { 2 } else { 0 };
         let seq = with_lab(Lab::tick);
         if npend == 0 {
             // Only an external wake-up (retry delay timer thread) can make progress now.
@@ -578,9 +586,10 @@ pub fn run_case(case: &RCase, sched: &mut Schedule<'_>) -> RunLog {
         wait_started = None;
         let choice = sched.pick(npend + extra);
         if choice >= npend {
-            quiescent.push(Quiescent { round, seq, at: Instant::now(), in_flight: in_flight.max(0) as usize, pending_labels: labels, action: "sleep".into(), branching: npend + extra, choice });
-            thread::sleep(max_delay + Duration::from_millis(2));
-            slept_for_current = true;
+            let long = choice == npend + 1;
+            quiescent.push(Quiescent { round, seq, at: Instant::now(), in_flight: in_flight.max(0) as usize, pending_labels: labels, action: if long { "sleep-long".into() } else { "sleep-short".into() }, branching: npend + extra, choice });
+            thread::sleep(if long { max_delay + Duration::from_millis(2) } else { Duration::from_millis(1) });
+            sleeps_in_epoch += if long { 6 } else { 1 };
             continue;
         }
         let (w, label) = with_lab(|l| {
@@ -628,5 +637,6 @@ pub fn run_case(case: &RCase, sched: &mut Schedule<'_>) -> RunLog {
         max_idle_turns_in_poll: max_idle,
         parser_delivered: delivered.load(Ordering::SeqCst),
         post_end_polls_ok,
+        max_delayed_outstanding,
     }
 }
